@@ -10,4 +10,17 @@ require (
 	golang.org/x/time v0.0.0-20220609170525-579cf78fd858
 )
 
+require (
+	github.com/anacrolix/chansync v0.3.0 // indirect
+	github.com/anacrolix/missinggo v1.3.0 // indirect
+	github.com/anacrolix/missinggo/perf v1.0.0 // indirect
+	github.com/anacrolix/missinggo/v2 v2.7.1 // indirect
+	github.com/anacrolix/multiless v0.3.1-0.20221221005021-2d12701f83f7 // indirect
+	github.com/anacrolix/sync v0.4.0 // indirect
+	github.com/benbjohnson/immutable v0.4.1-0.20221220213129-8932b999621d // indirect
+	github.com/bradfitz/iter v0.0.0-20191230175014-e8f45d346db8 // indirect
+	github.com/huandu/xstrings v1.3.2 // indirect
+	golang.org/x/exp v0.0.0-20221217163422-3c43f8badb15 // indirect
+)
+
 replace github.com/anacrolix/dht/v2 => /repo
